@@ -13,7 +13,9 @@
 //   X  __parsec_reschedule(own stream, task) -> next stream (only with C08_NEXT_TARGET=1; see check.py)
 // oracle: every scheduling instance is returned exactly once (checked at return time), by a stream of the same VP, and a
 // sequential drain over all streams after the concurrent phase leaves nothing behind.
-// modes: rc <mod> <n> | exh <mod> | stress <mod> <T> <iters> <seed> | replay <file>
+// modes: rc <mod> <n> [<nvp> <tpv>] | exh <mod> | stress <mod> <T> <iters> <seed> [<nvp> <tpv>] | replay <file>
+//   F  module.schedule(stream 0 of another VP) and per-VP rings in V/N/C exist when the context has several virtual processes
+//      (--mca runtime_vpmap rr:<nvp>:<tpv>:<cores>); the oracle then checks 'returned by a stream of the VP it was handed to'
 #include <algorithm>
 #include <atomic>
 #include <climits>
@@ -29,35 +31,38 @@ void *ss_es(int, int); int ss_es_vp(void *); void ss_bind_thread(void *);
 void *ss_task_new(int); void ss_task_set(void *, int, int, int); int ss_task_id(void *); int ss_task_stamp_ok(void *);
 void *ss_make_ring(void **, int); int ss_schedule(void *, void *, int); void *ss_select(void *, int *);
 void *ss_comm_es(void); void *ss_take_next_task(void *); int ss_schedule_vp(void *, int, void *, int);
+int ss_init_vp(int, const char *, int, int); int ss_schedule_vp_rings(void *, void **, int);
 int ss_reschedule(void *, void *); void ss_demote(void *); int ss_lq_info(void *, int *, int *); int ss_fini(void);
 }
 
 static const int POOL = 4096;
 static std::vector<void *> g_task;                      // harness-owned tasks, id == index
 static std::unordered_map<void *, int> g_index;         // pointer -> id (lookup only, never iterated)
-static std::string g_mod; static int g_n = 0;
+static std::string g_mod; static int g_n = 0;        // g_n = total number of streams = g_nvp * g_tpv
+static int g_nvp = 1, g_tpv = 0;                        // virtual processes, streams per VP (stream s = (vp s / g_tpv, local s % g_tpv))
 static int g_nb_hq = -1, g_tq_size = -1;                // bounded-buffer geometry (lfq lhq ltq pbq), else -1
 static bool g_allow_next = false;
 static bool g_failed_before = false;                    // an earlier case of this process failed: leftovers are possible
 
 struct Op {
     char kind = 'G'; int dist = 0; int hp = 0;
-    std::vector<int> prio, grp;                          // ring, in ring order (non-increasing priority)
+    int tvp = 0;                                         // F: the virtual process whose stream 0 gets the ring
+    std::vector<int> prio, grp, vp;                      // ring, in ring order (non-increasing priority); vp: destination VP (V N C)
 };
 struct Case {
-    std::string mod; int n = 2; int sparse = 0;
+    std::string mod; int n = 2; int sparse = 0; int nvp = 1, tpv = 0;
     int pre = 0;                                         // tasks put on stream 0 sequentially before the threads start
     std::vector<std::vector<Op>> prog;                   // n stream threads, then optionally one comm-thread program
     std::vector<uint8_t> sched;
     bool has_comm() const { return (int)prog.size() == n + 1; }
     std::string repr() const {
         std::ostringstream o;
-        o << "C08 mod " << mod << " n " << n << " threads " << prog.size() << " sparse " << sparse << " pre " << pre << "\n";
+        o << "C08 mod " << mod << " n " << n << " threads " << prog.size() << " sparse " << sparse << " pre " << pre << " nvp " << nvp << " tpv " << (tpv ? tpv : n) << "\n";
         for (auto &p : prog) {
             o << "thread\n";
             for (auto &op : p) {
-                o << "op " << op.kind << " dist " << op.dist << " hp " << op.hp << " ring";
-                for (size_t i = 0; i < op.prio.size(); i++) o << " " << op.prio[i] << ":" << op.grp[i];
+                o << "op " << op.kind << " dist " << op.dist << " hp " << op.hp << " tvp " << op.tvp << " ring";
+                for (size_t i = 0; i < op.prio.size(); i++) o << " " << op.prio[i] << ":" << op.grp[i] << ":" << (i < op.vp.size() ? op.vp[i] : 0);
                 o << "\n";
             }
         }
@@ -68,13 +73,18 @@ struct Case {
         Case c; std::istringstream in(s); std::string line;
         while (std::getline(in, line)) {
             std::istringstream ls(line); std::string w; ls >> w;
-            if (w == "C08") { std::string k, v; while (ls >> k >> v) { if (k == "mod") c.mod = v; else if (k == "n") c.n = atoi(v.c_str()); else if (k == "sparse") c.sparse = atoi(v.c_str()); else if (k == "pre") c.pre = atoi(v.c_str()); } }
+            if (w == "C08") { std::string k, v; while (ls >> k >> v) { if (k == "mod") c.mod = v; else if (k == "n") c.n = atoi(v.c_str()); else if (k == "sparse") c.sparse = atoi(v.c_str()); else if (k == "pre") c.pre = atoi(v.c_str()); else if (k == "nvp") c.nvp = atoi(v.c_str()); else if (k == "tpv") c.tpv = atoi(v.c_str()); } if (c.tpv <= 0) c.tpv = c.n; }
             else if (w == "thread") c.prog.emplace_back();
             else if (w == "op" && !c.prog.empty()) {
                 Op op; std::string k; ls >> k; op.kind = k.empty() ? 'G' : k[0];
                 std::string kw; int v;
-                ls >> kw >> v; op.dist = v; ls >> kw >> v; op.hp = v; ls >> kw;
-                std::string tok; while (ls >> tok) { size_t p = tok.find(':'); op.prio.push_back(atoi(tok.substr(0, p).c_str())); op.grp.push_back(p == std::string::npos ? 0 : atoi(tok.substr(p + 1).c_str())); }
+                while (ls >> kw && kw != "ring") { ls >> v; if (kw == "dist") op.dist = v; else if (kw == "hp") op.hp = v; else if (kw == "tvp") op.tvp = v; }
+                std::string tok;
+                while (ls >> tok) {
+                    int f[3] = {0, 0, 0}; size_t at = 0;
+                    for (int q = 0; q < 3 && at <= tok.size(); q++) { size_t e = tok.find(':', at); f[q] = atoi(tok.substr(at, e == std::string::npos ? std::string::npos : e - at).c_str()); if (e == std::string::npos) break; at = e + 1; }
+                    op.prio.push_back(f[0]); op.grp.push_back(f[1]); op.vp.push_back(f[2]);
+                }
                 c.prog.back().push_back(op);
             }
             else if (w == "sched") { int x; while (ls >> x) c.sched.push_back((uint8_t)x); }
@@ -85,6 +95,7 @@ struct Case {
 
 struct RunInfo {
     bool nontrivial = false, long_ring = false, same_target_overlap = false, retained = false;
+    bool per_vp_rings = false; int foreign_vp = 0;       // one call carried rings for >= 2 VPs; tasks handed to a VP other than the caller's
     uint64_t steps = 0; int scheduled = 0, from_sysq = 0, stolen = 0, again = 0, null_selects = 0, drained = 0, stale = 0;
 };
 
@@ -95,9 +106,9 @@ struct SchedRec { int thread, target; uint64_t inv, resp; };
 // Runs the case (the process's module / stream count must match); "" when the property held.
 static std::string run_case(const Case &c, dsched::Chooser &ch, RunInfo *ri)
 {
-    const int n = c.n, T = (int)c.prog.size();
+    const int n = c.n, T = (int)c.prog.size(), nvp = g_nvp, tpv = g_tpv;
     std::vector<void *> es(n);
-    for (int i = 0; i < n; i++) es[i] = ss_es(0, i);
+    for (int i = 0; i < n; i++) es[i] = ss_es(i / tpv, i % tpv);
     void *comm = c.has_comm() ? ss_comm_es() : nullptr;
     // leftovers of an earlier *failed* case in this process (shrinking continues in the same process) are removed first
     {
@@ -118,7 +129,7 @@ static std::string run_case(const Case &c, dsched::Chooser &ch, RunInfo *ri)
         ids[t].resize(c.prog[t].size());
         for (size_t k = 0; k < c.prog[t].size(); k++) {
             const Op &op = c.prog[t][k];
-            if (op.kind == 'S' || op.kind == 'V' || op.kind == 'N' || op.kind == 'C')
+            if (op.kind == 'S' || op.kind == 'V' || op.kind == 'N' || op.kind == 'C' || op.kind == 'F' || t == n)
                 for (size_t i = 0; i < op.prio.size(); i++) {
                     if (next_id >= POOL) return "";   // generator bound; not reachable with the generator's limits
                     ss_task_set(g_task[next_id], op.prio[i], op.grp[i], op.hp);
@@ -145,16 +156,19 @@ static std::string run_case(const Case &c, dsched::Chooser &ch, RunInfo *ri)
                  (state[id] == ST_HELD ? "already returned once: duplicate" : "never scheduled") + "; " + where[id] + ")");
             return -1;
         }
-        if (ss_es_vp(es[stream]) != sched_vp[id]) fail("task " + std::to_string(id) + " scheduled on VP " + std::to_string(sched_vp[id]) + " was returned on another VP");
+        if (ss_es_vp(es[stream]) != sched_vp[id])
+            fail("task " + std::to_string(id) + " was handed to virtual process " + std::to_string(sched_vp[id]) + " (" + where[id] + ") but " + how + " returned it on stream " +
+                 std::to_string(stream) + " of virtual process " + std::to_string(ss_es_vp(es[stream])));
         state[id] = ST_HELD; returns[id]++; pending--;
         return id;
     };
     auto mark_scheduled = [&](const std::vector<int> &ring, int t, size_t k, char kind, int dist, int target) {
         for (int id : ring) {
-            state[id] = ST_PENDING; scheduled_cnt[id]++; pending++; sched_vp[id] = 0;
+            state[id] = ST_PENDING; scheduled_cnt[id]++; pending++; sched_vp[id] = target / tpv;
             where[id] = std::string("scheduled by thread ") + std::to_string(t) + " op " + std::to_string(k) + " kind " + kind + " dist " + std::to_string(dist) + " target stream " + std::to_string(target);
         }
         ri->scheduled += (int)ring.size();
+        if (t >= 0 && t < n && target / tpv != t / tpv) ri->foreign_vp += (int)ring.size();
         if ((int)ring.size() > (g_tq_size > 0 ? g_tq_size : 4 * n)) ri->long_ring = true;
     };
 
@@ -176,20 +190,37 @@ static std::string run_case(const Case &c, dsched::Chooser &ch, RunInfo *ri)
                 const Op &op = c.prog[t][k];
                 char kind = op.kind;
                 if (is_comm) kind = 'C';
-                if (kind == 'S' || kind == 'V' || kind == 'N' || kind == 'C') {
+                if (kind == 'S' || kind == 'F') {
                     const std::vector<int> &ring = ids[t][k];
                     if (ring.empty()) continue;
                     std::vector<void *> ptr; for (int id : ring) ptr.push_back(g_task[id]);
                     void *r = ss_make_ring(ptr.data(), (int)ptr.size());
-                    int target = (kind == 'S' || (kind == 'V' && op.dist == 0)) ? t : 0;
-                    int dist = (kind == 'C') ? 0 : op.dist;
-                    mark_scheduled(ring, t, k, kind, dist, target);
+                    int target = kind == 'S' ? t : (op.tvp % nvp) * tpv;       // F: stream 0 of a (possibly foreign) VP, as __parsec_schedule_vp does
+                    mark_scheduled(ring, t, k, kind, op.dist, target);
                     SchedRec sr{t, target, dsched::now(), 0};
-                    if (kind == 'S') ss_schedule(me, r, dist);
-                    else if (kind == 'V') ss_schedule_vp(me, 0, r, dist);
-                    else if (kind == 'N') ss_schedule_vp(nullptr, 0, r, dist);
-                    else ss_schedule_vp(me, 0, r, 0);
+                    ss_schedule(es[target], r, op.dist);
                     sr.resp = dsched::now() + 1; recs.push_back(sr);
+                } else if (kind == 'V' || kind == 'N' || kind == 'C') {
+                    const std::vector<int> &ring = ids[t][k];
+                    if (ring.empty()) continue;
+                    int dist = (kind == 'C') ? 0 : op.dist;
+                    int myvp = is_comm ? 0 : t / tpv;
+                    // one ring per destination VP (a sub-sequence of a sorted ring is sorted)
+                    std::vector<std::vector<int>> sub(nvp);
+                    for (size_t i = 0; i < ring.size(); i++) sub[(i < op.vp.size() ? op.vp[i] : 0) % nvp].push_back(ring[i]);
+                    std::vector<void *> rings(nvp, nullptr); int nrings = 0;
+                    uint64_t inv = dsched::now(); size_t first_rec = recs.size();
+                    for (int v = 0; v < nvp; v++) {
+                        if (sub[v].empty()) continue;
+                        std::vector<void *> ptr; for (int id : sub[v]) ptr.push_back(g_task[id]);
+                        rings[v] = ss_make_ring(ptr.data(), (int)ptr.size()); nrings++;
+                        int target = (kind == 'V' && dist == 0 && v == myvp) ? t : v * tpv;   // own VP at distance 0: next_task + own stream
+                        mark_scheduled(sub[v], t, k, kind, dist, target);
+                        recs.push_back(SchedRec{t, target, inv, 0});
+                    }
+                    if (nrings >= 2) ri->per_vp_rings = true;
+                    ss_schedule_vp_rings(kind == 'N' ? nullptr : me, rings.data(), dist);
+                    for (size_t q = first_rec; q < recs.size(); q++) recs[q].resp = dsched::now() + 1;
                 } else if (kind == 'G') {
                     int d = 0; const char *how = "select";
                     void *r = ss_take_next_task(me);
@@ -203,7 +234,11 @@ static std::string run_case(const Case &c, dsched::Chooser &ch, RunInfo *ri)
                 } else if (kind == 'A' || kind == 'X') {
                     if (held.empty() || (kind == 'X' && !g_allow_next)) continue;
                     auto h = held.back(); held.pop_back();
-                    int target = kind == 'A' ? t : (t + 1) % n;
+                    int target = t;
+                    if (kind == 'X') {   // __parsec_reschedule: next stream of the own VP; a 1-stream VP hands over to stream 0 of the next VP
+                        if (tpv != 1) target = (t / tpv) * tpv + (t % tpv + 1) % tpv;
+                        else if (nvp > 1) target = ((t + 1) % nvp) * tpv;
+                    }
                     mark_scheduled({h.first}, t, k, kind, kind == 'A' ? h.second + 1 : 0, target);
                     ri->again++;
                     SchedRec sr{t, target, dsched::now(), 0};
@@ -267,13 +302,16 @@ struct FairChooser : dsched::ByteChooser {
 static std::string g_current;
 static void fatal_hook(const char *what) { vf::record_failure(g_current, what); vf::dump(); }
 
-static void setup(const std::string &mod, int n)
+static void setup(const std::string &mod, int n, int nvp = 1, int tpv = 0)
 {
-    int rc = ss_init(n, mod.c_str());
-    if (rc != 0 || mod != ss_sched_name() || ss_nb_vp() < 1 || ss_nb_streams(0) != n) {
-        fprintf(stderr, "C08: cannot bring up module %s with %d streams (rc=%d installed=%s streams=%d)\n", mod.c_str(), n, rc, rc ? "?" : ss_sched_name(), rc ? -1 : ss_nb_streams(0));
+    if (nvp <= 1) { nvp = 1; tpv = n; }
+    n = nvp * tpv;
+    int rc = ss_init_vp(n, mod.c_str(), nvp, tpv);
+    if (rc != 0 || mod != ss_sched_name() || ss_nb_vp() != nvp || ss_nb_streams(0) != tpv) {
+        fprintf(stderr, "C08: cannot bring up module %s with %d VP x %d streams (rc=%d installed=%s vps=%d streams=%d)\n", mod.c_str(), nvp, tpv, rc, rc ? "?" : ss_sched_name(), rc ? -1 : ss_nb_vp(), rc ? -1 : ss_nb_streams(0));
         _exit(4);
     }
+    g_nvp = nvp; g_tpv = tpv;
     g_mod = mod; g_n = n;
     g_task.resize(POOL);
     for (int i = 0; i < POOL; i++) { g_task[i] = ss_task_new(i); g_index[g_task[i]] = i; }
@@ -284,6 +322,11 @@ static void setup(const std::string &mod, int n)
 static void labels(const Case &c, const RunInfo &ri)
 {
     vf::label("threads_" + std::to_string(c.prog.size()));
+    if (g_nvp > 1) {
+        vf::label("multi_vp_cases_nvp" + std::to_string(g_nvp) + "x" + std::to_string(g_tpv));
+        if (ri.per_vp_rings) vf::label("multi_vp_one_call_with_rings_for_several_vps");
+        if (ri.foreign_vp) vf::label("multi_vp_cases_handing_tasks_to_a_foreign_vp"), vf::label("multi_vp_tasks_handed_to_a_foreign_vp", ri.foreign_vp);
+    }
     if (c.has_comm()) vf::label("with_comm_thread");
     if (ri.long_ring) vf::label("ring_longer_than_local_buffer");
     if (c.pre) vf::label("prefilled_local_buffer");
@@ -308,17 +351,21 @@ static rc::Gen<Op> gen_ring_op(char kind)
         op.dist = dcls < 6 ? 0 : *rc::gen::resize(100, rc::gen::inRange(1, 4));
         op.hp = *rc::gen::resize(100, rc::gen::inRange(0, 8)) == 0;
         bool wide = *rc::gen::resize(100, rc::gen::inRange(0, 4)) == 0;
-        // one generator per ring (a generator call per task made generation dominate the run time): value = priority x group
-        std::vector<int> v = *rc::gen::container<std::vector<int>>((size_t)len, rc::gen::resize(100, rc::gen::inRange(0, (wide ? 2001 : 7) * 3)));
-        std::stable_sort(v.begin(), v.end(), [](int a, int b) { return a / 3 > b / 3; });
-        for (int x : v) { op.prio.push_back(x / 3 - (wide ? 1000 : 3)); op.grp.push_back(x % 3); }
+        // one generator per ring (a generator call per task made generation dominate the run time): value = priority x group x VP
+        const int NV = g_nvp, P = wide ? 2001 : 7;
+        std::vector<int> v = *rc::gen::container<std::vector<int>>((size_t)len, rc::gen::resize(100, rc::gen::inRange(0, P * 3 * NV)));
+        std::stable_sort(v.begin(), v.end(), [NV](int a, int b) { return a / (3 * NV) > b / (3 * NV); });
+        bool own_only = NV > 1 && *rc::gen::resize(100, rc::gen::inRange(0, 3)) == 0;     // sometimes everything for one VP
+        int one = NV > 1 ? *rc::gen::resize(100, rc::gen::inRange(0, NV)) : 0;
+        for (int x : v) { op.prio.push_back(x / (3 * NV) - (wide ? 1000 : 3)); op.grp.push_back((x / NV) % 3); op.vp.push_back(own_only ? one : x % NV); }
+        op.tvp = one;
         return op;
     });
 }
 
 static Case gen_case()
 {
-    Case c; c.mod = g_mod; c.n = g_n;
+    Case c; c.mod = g_mod; c.n = g_n; c.nvp = g_nvp; c.tpv = g_tpv;
     bool comm = *rc::gen::resize(100, rc::gen::inRange(0, 3)) == 0;
     c.sparse = *rc::gen::element(0, 128, 200, 240, 240);
     if (g_tq_size > 0) {   // bounded local buffers: sometimes start from a nearly full / just overflowing buffer on stream 0
@@ -331,8 +378,8 @@ static Case gen_case()
         int nops = (t == c.n) ? *rc::gen::resize(100, rc::gen::inRange(1, 4)) : *rc::gen::resize(100, rc::gen::inRange(1, 8));
         for (int k = 0; k < nops; k++) {
             if (t == c.n) { c.prog[t].push_back(*gen_ring_op('C')); continue; }
-            int w = *rc::gen::resize(100, rc::gen::inRange(0, g_allow_next ? 14 : 13));
-            char kind = w < 3 ? 'S' : w < 5 ? 'V' : w < 7 ? 'N' : w < 11 ? 'G' : w < 13 ? 'A' : 'X';
+            int w = *rc::gen::resize(100, rc::gen::inRange(g_nvp > 1 ? -2 : 0, g_allow_next ? 14 : 13));
+            char kind = w < 0 ? 'F' : w < 3 ? 'S' : w < 5 ? 'V' : w < 7 ? 'N' : w < 11 ? 'G' : w < 13 ? 'A' : 'X';
             if (kind == 'G' || kind == 'A' || kind == 'X') { Op op; op.kind = kind; c.prog[t].push_back(op); }
             else c.prog[t].push_back(*gen_ring_op(kind));
         }
@@ -389,12 +436,17 @@ static int do_stress(int T, long iters, unsigned seed)
     std::vector<std::vector<int>> stock(T);
     int per = std::min(POOL / T, 160);
     for (int t = 0; t < T; t++) for (int k = 0; k < per; k++) stock[t].push_back(t * per + k);
-    std::atomic<int> bad_dup{0}, bad_ptr{0}; std::atomic<long> nsched{0}, nret{0}, sysq{0}, overflow_rings{0};
-    std::vector<void *> es(T); for (int t = 0; t < T; t++) es[t] = ss_es(0, t);
+    std::atomic<int> bad_dup{0}, bad_ptr{0}, bad_vp{0}; std::atomic<long> nsched{0}, nret{0}, sysq{0}, overflow_rings{0}, foreign{0};
+    std::vector<std::atomic<int>> vp_of(POOL);         // the virtual process each pending task was handed to
+    for (auto &v : vp_of) v = 0;
+    const int nvp = g_nvp, tpv = g_tpv;
+    std::vector<void *> es(T); for (int t = 0; t < T; t++) es[t] = ss_es(t / tpv, t % tpv);
     auto got = [&](void *r, int t) -> bool {
         auto it = g_index.find(r);
         if (it == g_index.end() || !ss_task_stamp_ok(r)) { bad_ptr++; return false; }
+        int want_vp = vp_of[it->second].load();
         if (state[it->second].exchange(ST_HELD) != ST_PENDING) { bad_dup++; return false; }
+        if (want_vp != t / tpv) bad_vp++;
         stock[t].push_back(it->second); nret++; return true;
     };
     auto worker = [&](int t, bool drain_only) {
@@ -413,13 +465,23 @@ static int do_stress(int T, long iters, unsigned seed)
                 std::sort(pr.begin(), pr.end(), [](int a, int b) { return a > b; });
                 std::vector<void *> ptr;
                 int hp = rnd(8) == 0;
-                for (int k = 0; k < len; k++) { int id = st.back(); st.pop_back(); ss_task_set(g_task[id], pr[k], rnd(3), hp); if (state[id].exchange(ST_PENDING) == ST_PENDING) bad_dup++; ptr.push_back(g_task[id]); }
-                void *r = ss_make_ring(ptr.data(), len);
-                nsched += len; if (len > (g_tq_size > 0 ? g_tq_size : 4 * T)) overflow_rings++;
                 int how = rnd(8), dist = rnd(3) == 0 ? 1 + rnd(3) : 0;
-                if (how < 4) ss_schedule(es[t], r, dist);
-                else if (how < 6) ss_schedule_vp(es[t], 0, r, how == 4 ? 0 : dist);
-                else ss_schedule_vp(nullptr, 0, r, 0);
+                bool split = nvp > 1 && how >= 4 && rnd(3) != 0;      // __parsec_schedule_vp with rings for several VPs
+                int onevp = (how >= 4 && nvp > 1) ? rnd(nvp) : t / tpv;
+                std::vector<std::vector<void *>> sub(nvp);
+                for (int k = 0; k < len; k++) {
+                    int id = st.back(); st.pop_back(); ss_task_set(g_task[id], pr[k], rnd(3), hp);
+                    int v = how < 4 ? t / tpv : split ? rnd(nvp) : onevp;
+                    vp_of[id] = v; if (v != t / tpv) foreign++;
+                    if (state[id].exchange(ST_PENDING) == ST_PENDING) bad_dup++;
+                    sub[v].push_back(g_task[id]);
+                }
+                nsched += len; if (len > (g_tq_size > 0 ? g_tq_size : 4 * tpv)) overflow_rings++;
+                std::vector<void *> rings(nvp, nullptr);
+                for (int v = 0; v < nvp; v++) if (!sub[v].empty()) rings[v] = ss_make_ring(sub[v].data(), (int)sub[v].size());
+                if (how < 4) ss_schedule(es[t], rings[t / tpv], dist);
+                else if (how < 6) ss_schedule_vp_rings(es[t], rings.data(), how == 4 ? 0 : dist);
+                else ss_schedule_vp_rings(nullptr, rings.data(), 0);
                 empties = 0;
             } else {
                 int d = 0; void *r = ss_take_next_task(es[t]);
@@ -430,6 +492,7 @@ static int do_stress(int T, long iters, unsigned seed)
                 if (g_nb_hq >= 0 && d == g_nb_hq + 1) sysq++;
                 if (!drain_only && rnd(6) == 0) {   // HOOK_RETURN_AGAIN
                     int id = st.back(); st.pop_back();
+                    vp_of[id] = t / tpv;
                     if (state[id].exchange(ST_PENDING) == ST_PENDING) bad_dup++;
                     nsched++; ss_demote(g_task[id]); ss_schedule(es[t], g_task[id], d + 1);
                 }
@@ -454,13 +517,15 @@ static int do_stress(int T, long iters, unsigned seed)
     }
     ss_bind_thread(es[0]);
     std::string e;
-    if (bad_ptr) e = "a select returned a pointer that is not a harness task (" + std::to_string(bad_ptr.load()) + " times)";
+    if (bad_vp) e = "a task was returned by a stream of another virtual process than the one it was handed to (" + std::to_string(bad_vp.load()) + " times)";
+    else if (bad_ptr) e = "a select returned a pointer that is not a harness task (" + std::to_string(bad_ptr.load()) + " times)";
     else if (bad_dup) e = "a task was returned while not pending, i.e. returned twice (" + std::to_string(bad_dup.load()) + " times)";
     else if (guard > POOL) e = "the drain returns more tasks than exist";
     else { long lost = 0; int first = -1; for (int i = 0; i < POOL; i++) if (state[i] == ST_PENDING) { lost++; if (first < 0) first = i; }
         if (lost) e = std::to_string(lost) + " scheduled tasks were never returned (first: task " + std::to_string(first) + "), all streams report empty"; }
-    std::string repr = "C08-stress mod " + g_mod + " threads " + std::to_string(T) + " iters " + std::to_string(iters) + " seed " + std::to_string(seed) + "\n";
+    std::string repr = "C08-stress mod " + g_mod + " threads " + std::to_string(T) + " iters " + std::to_string(iters) + " seed " + std::to_string(seed) + " nvp " + std::to_string(nvp) + " tpv " + std::to_string(tpv) + "\n";
     vf::note_case(repr, T >= 2);
+    if (nvp > 1) { vf::label("stress_multi_vp_runs_nvp" + std::to_string(nvp) + "x" + std::to_string(tpv)); vf::label("stress_multi_vp_tasks_handed_to_a_foreign_vp", foreign); }
     vf::label("stress_tasks_scheduled", nsched); vf::label("stress_tasks_from_system_queue", sysq); vf::label("stress_rings_longer_than_local_buffer", overflow_rings);
     if (!e.empty()) { vf::record_failure(repr, e); vf::dump(); return 1; }
     vf::dump();
@@ -476,14 +541,14 @@ int main(int argc, char **argv)
     if (mode == "replay") {
         std::string txt = vf::slurp(argv[2]);
         if (txt.rfind("C08-stress", 0) == 0) {
-            char mod[32]; int T; long it; unsigned sd;
-            if (sscanf(txt.c_str(), "C08-stress mod %31s threads %d iters %ld seed %u", mod, &T, &it, &sd) != 4) { printf("REPLAY-FAIL unparsable\n"); return 2; }
-            setup(mod, T);
+            char mod[32]; int T; long it; unsigned sd; int nvp = 1, tpv = 0;
+            if (sscanf(txt.c_str(), "C08-stress mod %31s threads %d iters %ld seed %u nvp %d tpv %d", mod, &T, &it, &sd, &nvp, &tpv) < 4) { printf("REPLAY-FAIL unparsable\n"); return 2; }
+            setup(mod, T, nvp, tpv);
             int r = 0; for (int k = 0; k < 3 && !r; k++) r = do_stress(T, it, sd);
             printf(r ? "REPLAY-FAIL stress (see the .failmsg / VF_OUT)\n" : "REPLAY-PASS\n"); finish(r);
         }
         Case c = Case::parse(txt);
-        setup(c.mod, c.n);
+        setup(c.mod, c.n, c.nvp, c.tpv);
         g_current = c.repr();
         FairChooser ch(c.sched.data(), c.sched.size(), c.sparse);
         RunInfo ri; std::string e = run_case(c, ch, &ri);
@@ -492,8 +557,8 @@ int main(int argc, char **argv)
     }
     if (argc < 3) { fprintf(stderr, "usage: sched rc|exh|stress <module> ...\n"); return 2; }
     if (mode == "exh") { setup(argv[2], 2); finish(do_exh(argc > 3 ? atoi(argv[3]) : 2)); }
-    if (mode == "stress") { int T = atoi(argv[3]); setup(argv[2], T); finish(do_stress(T, atol(argv[4]), (unsigned)atoi(argv[5]))); }
-    setup(argv[2], atoi(argv[3]));
+    if (mode == "stress") { int T = atoi(argv[3]); setup(argv[2], T, argc > 7 ? atoi(argv[6]) : 1, argc > 7 ? atoi(argv[7]) : 0); T = g_n; finish(do_stress(T, atol(argv[4]), (unsigned)atoi(argv[5]))); }
+    setup(argv[2], atoi(argv[3]), argc > 5 ? atoi(argv[4]) : 1, argc > 5 ? atoi(argv[5]) : 0);   // rc <mod> <n> [<nvp> <tpv>]
     bool ok = rc::check("every scheduled task is returned exactly once (" + g_mod + ")", []() {
         Case c = gen_case();
         g_current = c.repr();
